@@ -61,7 +61,7 @@ class AbsWriterReplay:
 
     def run(self, I, scenario, claim_name, pre):
         code = self.driver % dict(helpers=HELPERS, stream=rust_bytes(pre["stream"]), pending=rust_bytes(pre["pending"]),
-                                  P=pre["P"], npages=pre["npages"], op=self.op_rust(pre))
+                                  P=pre["P"], npages=pre["npages"], op=self.op_rust(pre), fault_at=-1, shorts="")
         rc, out = run_rust_test(I.crate_dir, self.module, code)
         kv = parse_kv(out)
         info = dict(pre={k: (len(v) if isinstance(v, bytes) else v) for k, v in pre.items()}, rust=code)
